@@ -1,8 +1,8 @@
 package an
 
 import (
-	"go/constant"
 	"fmt"
+	"go/constant"
 	"go/token"
 	"go/types"
 	"sort"
@@ -34,18 +34,20 @@ type ost struct {
 
 type world struct {
 	o     map[ssa.Value]ost
-	alias map[ssa.Value]ssa.Value // phi -> origin (nil value = nil constant)
+	alias map[ssa.Value]ssa.Value    // phi -> origin (nil value = nil constant)
 	agg   map[*ssa.Alloc][]ssa.Value // local aggregate -> message origins stored in it
-	hdr   map[ssa.Value]bool // param origin whose Header was re-sliced and not restored
-	errs  map[ssa.Value]bool // error value -> known to be nil (true) / non-nil (false) in this world
-	deriv map[ssa.Value]string // origin -> heap field that holds an un-copied slice of its Body/Header
-	dfree map[ssa.Value]bool   // origins with a pending `defer m.Free()` (released at rundefers)
-	wr    map[ssa.Value]string // origin -> where the message was first written through (Header/Body)
-	bools map[ssa.Value]bool   // boolean merge -> its constant value on the way this world came by
+	hdr   map[ssa.Value]bool         // param origin whose Header was re-sliced and not restored
+	errs  map[ssa.Value]bool         // error value -> known to be nil (true) / non-nil (false) in this world
+	deriv map[ssa.Value]string       // origin -> heap field that holds an un-copied slice of its Body/Header
+	dfree map[ssa.Value]bool         // origins with a pending `defer m.Free()` (released at rundefers)
+	wr    map[ssa.Value]string       // origin -> where the message was first written through (Header/Body)
+	bools map[ssa.Value]bool         // boolean merge -> its constant value on the way this world came by
+	cells map[*ssa.Alloc]ssa.Value   // local *Message variable that lives in memory (captured by a closure) -> the origin it holds (nil value = nil)
+	dcell map[*ssa.Alloc]bool        // such variables that a deferred closure releases at function exit
 }
 
 func newWorld() *world {
-	return &world{o: map[ssa.Value]ost{}, alias: map[ssa.Value]ssa.Value{}, agg: map[*ssa.Alloc][]ssa.Value{}, hdr: map[ssa.Value]bool{}, errs: map[ssa.Value]bool{}, deriv: map[ssa.Value]string{}, dfree: map[ssa.Value]bool{}, wr: map[ssa.Value]string{}, bools: map[ssa.Value]bool{}}
+	return &world{o: map[ssa.Value]ost{}, alias: map[ssa.Value]ssa.Value{}, agg: map[*ssa.Alloc][]ssa.Value{}, hdr: map[ssa.Value]bool{}, errs: map[ssa.Value]bool{}, deriv: map[ssa.Value]string{}, dfree: map[ssa.Value]bool{}, wr: map[ssa.Value]string{}, bools: map[ssa.Value]bool{}, cells: map[*ssa.Alloc]ssa.Value{}, dcell: map[*ssa.Alloc]bool{}}
 }
 
 func (w *world) clone() *world {
@@ -76,6 +78,12 @@ func (w *world) clone() *world {
 	}
 	for k, v := range w.bools {
 		n.bools[k] = v
+	}
+	for k, v := range w.cells {
+		n.cells[k] = v
+	}
+	for k, v := range w.dcell {
+		n.dcell[k] = v
 	}
 	return n
 }
@@ -115,6 +123,16 @@ func (w *world) key() string {
 	}
 	for k := range w.wr {
 		parts = append(parts, "wr:"+k.Name())
+	}
+	for k, v := range w.cells {
+		if v == nil {
+			parts = append(parts, "cell:"+k.Name()+"=nil")
+		} else {
+			parts = append(parts, "cell:"+k.Name()+"="+v.Name())
+		}
+	}
+	for k := range w.dcell {
+		parts = append(parts, "dcell:"+k.Name())
 	}
 	for k, v := range w.bools {
 		parts = append(parts, fmt.Sprintf("bool:%s=%v", k.Name(), v))
@@ -199,14 +217,14 @@ func stripCast(v ssa.Value) ssa.Value {
 }
 
 type e5Ctx struct {
-	p    *Prog
-	r    *e5Result
-	fn   *ssa.Function
-	seen map[string]bool
-	exit []*world // worlds at returns with the returned error description
-	exitErr []string
+	p         *Prog
+	r         *e5Result
+	fn        *ssa.Function
+	seen      map[string]bool
+	exit      []*world // worlds at returns with the returned error description
+	exitErr   []string
 	paramSent map[*ssa.Parameter][]*types.Var
-	hdrStrip map[*ssa.Parameter]ssa.Instruction // where the parameter's header was re-sliced
+	hdrStrip  map[*ssa.Parameter]ssa.Instruction // where the parameter's header was re-sliced
 }
 
 func (c *e5Ctx) issue(kind string, in ssa.Instruction, what, msg string) {
@@ -230,6 +248,15 @@ func (c *e5Ctx) origin(w *world, v ssa.Value) (ssa.Value, bool) {
 			return nil, false // phi not yet bound in this world (loop-carried before first pass)
 		}
 		return o, true
+	}
+	// a local variable that lives in memory (it is captured by a closure): a load reads the
+	// origin the last store put there
+	if u, ok := v.(*ssa.UnOp); ok && u.Op == token.MUL {
+		if al, ok := u.X.(*ssa.Alloc); ok {
+			if o, known := w.cells[al]; known {
+				return o, true
+			}
+		}
 	}
 	// fields of one local tuple/struct value are one origin however often they are read
 	switch x := v.(type) {
@@ -742,6 +769,35 @@ func (c *e5Ctx) transfer(w *world, ins ssa.Instruction) bool {
 			}
 		}
 	}
+	if x, ok := ins.(*ssa.Defer); ok {
+		// `defer func() { m.Free(); … }()` with m a variable of the enclosing function: the
+		// message m holds when the function returns is released then
+		if mc, ok := x.Call.Value.(*ssa.MakeClosure); ok {
+			if cf, ok := mc.Fn.(*ssa.Function); ok {
+				EachInstr(cf, func(in2 ssa.Instruction) {
+					cc2 := CallOf(in2)
+					if cc2 == nil || msgMethod(cc2) != "Free" || len(cc2.Args) == 0 {
+						return
+					}
+					u, ok := stripCast(cc2.Args[0]).(*ssa.UnOp)
+					if !ok || u.Op != token.MUL {
+						return
+					}
+					fv, ok := u.X.(*ssa.FreeVar)
+					if !ok {
+						return
+					}
+					for i, f := range cf.FreeVars {
+						if f == fv && i < len(mc.Bindings) {
+							if al, ok := mc.Bindings[i].(*ssa.Alloc); ok {
+								w.dcell[al] = true
+							}
+						}
+					}
+				})
+			}
+		}
+	}
 	switch x := ins.(type) {
 	case *ssa.Panic:
 		return true
@@ -759,6 +815,13 @@ func (c *e5Ctx) transfer(w *world, ins ssa.Instruction) bool {
 		// message stored into a field / local aggregate
 		if isMsgPtr(x.Val.Type()) {
 			o, ok := c.origin(w, x.Val)
+			if al, isCell := x.Addr.(*ssa.Alloc); isCell {
+				if ok {
+					w.cells[al] = o
+				} else {
+					delete(w.cells, al)
+				}
+			}
 			if fa, isFa := x.Addr.(*ssa.FieldAddr); isFa {
 				if al, isAl := fa.X.(*ssa.Alloc); isAl {
 					if ok && o != nil {
@@ -845,6 +908,18 @@ func (c *e5Ctx) transfer(w *world, ins ssa.Instruction) bool {
 			c.use(w, x.X, ins, "access to ."+fieldName(x.X.Type(), x.Field))
 		}
 	case *ssa.RunDefers:
+		{
+			var als []*ssa.Alloc
+			for al := range w.dcell {
+				als = append(als, al)
+			}
+			sort.Slice(als, func(i, j int) bool { return als[i].Name() < als[j].Name() })
+			for _, al := range als {
+				if o, ok := w.cells[al]; ok && o != nil {
+					c.release(w, o, x, stFreed, "deferred Free (in a deferred closure)")
+				}
+			}
+		}
 		var ds []ssa.Value
 		for o := range w.dfree {
 			ds = append(ds, o)
